@@ -22,7 +22,7 @@ KNOBS = ('cwd', 'umask', 'shell', 'ifile', 'noorg', 'noatt', 'mailrun', 'att2', 
 # clauses a knob can bear on; routing clauses do not carry the knob in their signature
 KNOB_CLAUSES = ('cwd', 'umask', 'stdin', 'shell', 'mail-unwanted', 'mail-count', 'mail-hdr', 'run-count', 'hang', 'echsx-died')
 # under the slowmail knob (2 s limit, job done at once, mailer busy for 4 s) every clause carries the knob
-ALL_CLAUSES_KNOBS = ('slowmail', 'mailfail', 'nomailer', 'slowpipe', 'relfile')
+ALL_CLAUSES_KNOBS = ('slowmail', 'mailfail', 'nomailer', 'slowpipe', 'relfile', 'devnull-o', 'devnull-e')
 # the umask menu: both ends, the usual ones, and the two largest values a request can carry
 UMASKS = (0o000, 0o022, 0o077, 0o377, 0o776, 0o777)
 NOMAIL_ROWS = ('R4', 'R8', 'R12', 'R16', 'R20', 'N4')
@@ -76,6 +76,13 @@ def extras(which):
         if r['name'] in (('R12', 'R16', 'R20') if which == 'quick' else NOMAIL_ROWS):
             for u in UMASKS:
                 out.append((r, 'alt50', '0', 'um%04o' % u))
+    # devnull-o / devnull-e: the output (error) file is /dev/null, the usual way to say "throw it away"; what the row
+    # sends by mail must still arrive, the journal must be written
+    for r in R:
+        if r['out']:
+            out.append((r, 'alt50', '0', 'devnull-o'))
+        if r['err'] and r['err'] != 'same':
+            out.append((r, 'alt50', '0', 'devnull-e'))
     return out
 
 
@@ -222,6 +229,20 @@ def run_case(D, d, row, jobm, ex, knob, uid, echsx, shim, rec, job):
     txt = vtodo(uidtxt, cmd, row, fdir, uid, k, extra)
     if knob == 'relfile':
         txt = txt.replace('X-ECHS-OFILE:%s/' % fdir, 'X-ECHS-OFILE:').replace('X-ECHS-EFILE:%s/' % fdir, 'X-ECHS-EFILE:')
+    jrow = row
+    if knob in ('devnull-o', 'devnull-e'):
+        o_, e_ = row_paths(row, fdir)
+        jrow = dict(row)
+        if knob == 'devnull-o':
+            txt = txt.replace('X-ECHS-OFILE:%s\n' % o_, 'X-ECHS-OFILE:/dev/null\n')
+            jrow['out'] = None
+            if row['err'] == 'same':
+                txt = txt.replace('X-ECHS-EFILE:%s\n' % o_, 'X-ECHS-EFILE:/dev/null\n')
+                jrow['err'] = None
+        else:
+            txt = txt.replace('X-ECHS-EFILE:%s\n' % e_, 'X-ECHS-EFILE:/dev/null\n')
+            jrow['err'] = None
+        assert '/dev/null' in txt
     D.desc('row %s (OFILE=%s EFILE=%s MAIL-OUT=%d MAIL-ERR=%d) job=%s exit=%s knob=%s; request: %s' % (
         row['name'], row['out'], row['err'], row['mo'], row['me'], jobm, ex, knob,
         txt.replace(d, '$D').replace('\n', '|')))
@@ -274,6 +295,8 @@ def run_case(D, d, row, jobm, ex, knob, uid, echsx, shim, rec, job):
     # what the job says it wrote
     out, err = rd(os.path.join(d, 'exp.out')), rd(os.path.join(d, 'exp.err'))
     of, ef = row_paths(row, fdir)
+    if jrow is not row:
+        of, ef = (of if jrow['out'] else None), (ef if jrow['err'] else None)
     if knob == 'relfile':
         # nobody says against which directory echsx resolves a relative name when it is not the requested one: its own
         # is accepted too (the routing clauses are about what is in the file and in the mail)
@@ -323,7 +346,7 @@ def run_case(D, d, row, jobm, ex, knob, uid, echsx, shim, rec, job):
     R['shell_log'] = None if sl is None else sl.decode('latin-1').split('\n')[:-1]
     status = {'0': ('exit', 0), '3': ('exit', 3), 'term': ('signal', 15), 'kill': ('signal', 9)}[ex]
     mailsel = row['mo'] or row['me'] or knob == 'mailrun'
-    exp = {'row': row, 'out': out or b'', 'err': err or b'', 'cmd': cmd, 'uid': uidtxt, 'status': status,
+    exp = {'row': jrow, 'out': out or b'', 'err': err or b'', 'cmd': cmd, 'uid': uidtxt, 'status': status,
            'mail': bool(mailsel and knob not in ('noorg', 'noatt', 'nomailer')),
            'nomail_why': 'no ORGANIZER' if knob == 'noorg' else 'no ATTENDEE' if knob == 'noatt' else 'the mailer cannot be started' if knob == 'nomailer' else 'nothing selected',
            'org': ORG, 'att': k.get('att', [ATT]), 'want_count': 1,
